@@ -28,6 +28,12 @@ pub enum Delivery {
     Lazy,
     LazyPending(u8),
     EffectPending(u8),
+    /// the request reaches the server at once, the response takes `ms` simulated milliseconds: the future is
+    /// Pending once while the simulated clock jumps forward (timers of the code under test that are due
+    /// fire), then Ready
+    SlowResponse(u32),
+    /// the request itself takes `ms` simulated milliseconds to reach the server
+    SlowRequest(u32),
     /// fault: the request is lost before it reaches the server and the client returns Err. Honoured
     /// for insert_order only (every other request treats it as Lazy): it is the one request whose
     /// failure the broker claims to handle (OrderFailure)
@@ -53,6 +59,8 @@ pub enum Wire {
     /// an injected transport failure: the request never reached the server, or (fetch_quotes) its
     /// response was lost; the client got Err
     Failed { what: &'static str },
+    /// an injected transport failure: this insert_order request never reached the server; the client got Err
+    InsertLost { bt: u64, order: Order },
     /// the server ticked, the response was lost and the client got Err
     TickLost { bt: u64, has_next: bool, trades: Vec<Trade>, admitted: Vec<Order>, clock_after: Option<i64> },
 }
@@ -77,6 +85,8 @@ pub struct Shared {
     pub lost_responses: Cell<u64>,
     /// faults the simulator may still inject (bounded liveness is stated for "once faults stop")
     pub fault_budget: Cell<i64>,
+    /// simulated milliseconds slow deliveries let pass
+    pub simulated_ms: Cell<u64>,
 }
 
 impl Shared {
@@ -95,6 +105,7 @@ impl Shared {
             failed_ticks: Cell::new(0),
             lost_responses: Cell::new(0),
             fault_budget: Cell::new(i64::MAX),
+            simulated_ms: Cell::new(0),
         })
     }
 
@@ -155,6 +166,9 @@ pub struct SimFut<T> {
     result: Option<T>,
     before: u8,
     after: u8,
+    /// simulated milliseconds to let pass before the effect / between the effect and the result
+    slow_before: u32,
+    slow_after: u32,
 }
 
 impl<T> Unpin for SimFut<T> {}
@@ -167,7 +181,7 @@ impl<T> SimFut<T> {
     }
 
     fn with_mode(sh: Rc<Shared>, effect: Box<dyn FnOnce() -> T>, mode: Delivery) -> Self {
-        let mut f = SimFut { sh, effect: Some(effect), result: None, before: 0, after: 0 };
+        let mut f = SimFut { sh, effect: Some(effect), result: None, before: 0, after: 0, slow_before: 0, slow_after: 0 };
         match mode {
             Delivery::Eager => {
                 let e = f.effect.take().unwrap();
@@ -176,6 +190,8 @@ impl<T> SimFut<T> {
             Delivery::Lazy | Delivery::InsertFails | Delivery::TickFails | Delivery::ResponseLost => {}
             Delivery::LazyPending(k) => f.before = k,
             Delivery::EffectPending(k) => f.after = k,
+            Delivery::SlowRequest(ms) => f.slow_before = ms,
+            Delivery::SlowResponse(ms) => f.slow_after = ms,
         }
         f
     }
@@ -185,6 +201,14 @@ impl<T> Future for SimFut<T> {
     type Output = T;
     fn poll(self: Pin<&mut Self>, cx: &mut Context<'_>) -> Poll<T> {
         let me = self.get_mut();
+        if me.slow_before > 0 {
+            crate::exec::advance(me.slow_before as u64);
+            me.sh.simulated_ms.set(me.sh.simulated_ms.get() + me.slow_before as u64);
+            me.slow_before = 0;
+            me.sh.pending_polls.set(me.sh.pending_polls.get() + 1);
+            cx.waker().wake_by_ref();
+            return Poll::Pending;
+        }
         if me.before > 0 {
             me.before -= 1;
             me.sh.pending_polls.set(me.sh.pending_polls.get() + 1);
@@ -194,6 +218,14 @@ impl<T> Future for SimFut<T> {
         if let Some(e) = me.effect.take() {
             me.sh.lazy_effects.set(me.sh.lazy_effects.get() + 1);
             me.result = Some(e());
+        }
+        if me.slow_after > 0 {
+            crate::exec::advance(me.slow_after as u64);
+            me.sh.simulated_ms.set(me.sh.simulated_ms.get() + me.slow_after as u64);
+            me.slow_after = 0;
+            me.sh.pending_polls.set(me.sh.pending_polls.get() + 1);
+            cx.waker().wake_by_ref();
+            return Poll::Pending;
         }
         if me.after > 0 {
             me.after -= 1;
@@ -293,7 +325,7 @@ impl UistClient for SimClient {
                 self.sh.clone(),
                 Box::new(move || {
                     sh2.failed_inserts.set(sh2.failed_inserts.get() + 1);
-                    sh2.wire.borrow_mut().push(Wire::Failed { what: "insert_order" });
+                    sh2.wire.borrow_mut().push(Wire::InsertLost { bt: backtest_id, order });
                     Err(anyhow!("injected fault: insert_order request lost"))
                 }),
                 Delivery::Lazy,
